@@ -1,6 +1,6 @@
 (* Model of target discovery and of the code generated per target.
    parse/parse.go: hasContextParam, hasErrorReturn, funcType, argTypes, setFuncs, setNamespaces,
-   isNamespace (as the flag [is_namespace]), sanitizeSynopsis, toOneLine, setDefault, setAliases,
+   isNamespace, sanitizeSynopsis, toOneLine, setDefault, setAliases, declaredValue,
    getFunction (no imports), TargetName, ExecCode; mage/main.go: lowerFirstWord/lowerFirst;
    mage/template.go: the entries of `list`, the `-h` case of a target.
    Executable definitions only.
@@ -118,7 +118,9 @@ Record rgroup := { rnames : nat; rkind_ : rkind }.
 Record fdecl := { fname : string; recv : option (string * bool) (* type name, pointer receiver *);
                   tparams : bool; params : list pgroup; res : list rgroup;
                   fdoc : string (* go/doc's Doc text *); fsyn : string (* doc.Synopsis fdoc *) }.
-Record tdecl := { tname : string; is_namespace : bool (* the declaration is textually `mg.Namespace` (isNamespace) *) }.
+Record tdecl := { tname : string;
+                  is_namespace : bool (* the declared type is textually `mg.Namespace` *);
+                  tgeneric : bool     (* the declaration has type parameters *) }.
 
 Inductive fref := FIdent (n : string) | FSel (x n : string) | FOther.
 Inductive vexpr := VRef (r : fref) | VMap (kvs : list (string * fref)).
@@ -238,6 +240,11 @@ Definition mkfn (d : fdecl) (receiver : string) (f : function) : function :=
   {| f_name := fname d; f_recv := receiver; f_iserr := f_iserr f; f_isctx := f_isctx f; f_args := f_args f;
      f_comment := toOneLine (fdoc d); f_synopsis := sanitizeSynopsis (fname d) (fsyn d) |}.
 
+(* parse.isNamespace: one spec, not generic (f02d247; [fixed] = false is the code before), a selector mg.Namespace *)
+Definition isNamespace_ (fixed : bool) (t : tdecl) : bool :=
+  if fixed && tgeneric t then false else is_namespace t.
+Definition isNamespace : tdecl -> bool := isNamespace_ true.
+
 (* each collected Function is kept together with the declaration it was made from *)
 Definition setFuncs (pk : pkg) : list (fdecl * function) :=
   flat_map (fun d =>
@@ -245,15 +252,18 @@ Definition setFuncs (pk : pkg) : list (fdecl * function) :=
     if negb (exported (fname d)) then [] else
     match funcType d with None => [] | Some f => [(d, mkfn d "" f)] end) (doc_funcs pk).
 
-Definition setNamespaces (pk : pkg) : list (fdecl * function) :=
+Definition setNamespaces_ (fixed : bool) (pk : pkg) : list (fdecl * function) :=
   flat_map (fun t =>
-    if negb (is_namespace t) then [] else
+    if negb (isNamespace_ fixed t) then [] else
     flat_map (fun d =>
       if negb (exported (fname d)) then [] else
       match funcType d with None => [] | Some f => [(d, mkfn d (tname t) f)] end) (doc_methods pk t)) (doc_types pk).
 
+Definition setNamespaces : pkg -> list (fdecl * function) := setNamespaces_ true.
+
 (* parse.Package: setNamespaces, then setFuncs *)
-Definition targets (pk : pkg) : list (fdecl * function) := setNamespaces pk ++ setFuncs pk.
+Definition targets_ (fixed : bool) (pk : pkg) : list (fdecl * function) := setNamespaces_ fixed pk ++ setFuncs pk.
+Definition targets : pkg -> list (fdecl * function) := targets_ true.
 Definition funcs (pk : pkg) : list function := map snd (targets pk).
 
 (* Function.TargetName; PkgAlias is empty (no imports in this model) *)
@@ -275,13 +285,14 @@ Fixpoint index_of (n : string) (l : list string) (i : nat) : option nat :=
 
 Inductive dres := DPanic | DNone | DSome (f : function).
 
-(* setDefault: for x, name := range v.Names { if name == "Default" { spec := v.Decl.Specs[x] ... spec.Values[0] *)
-Fixpoint setDefault_in (vs : list (list vspec)) (fs : list function) : dres :=
+(* the code before 3720af9:
+   for x, name := range v.Names { if name == "Default" { spec := v.Decl.Specs[x] ... spec.Values[0] *)
+Fixpoint setDefault_old (vs : list (list vspec)) (fs : list function) : dres :=
   match vs with
   | [] => DNone
   | v :: r =>
       match index_of "Default" (value_names v) 0 with
-      | None => setDefault_in r fs
+      | None => setDefault_old r fs
       | Some x =>
           match nth_error v x with
           | None => DPanic
@@ -294,17 +305,46 @@ Fixpoint setDefault_in (vs : list (list vspec)) (fs : list function) : dres :=
           end
       end
   end.
-Definition setDefault (pk : pkg) : dres := setDefault_in (doc_vars pk) (funcs pk).
+
+(* declaredValue(v, name): the spec that declares the name, the value at the name's position in
+   that spec; no value of its own when the spec has not one value per name *)
+Inductive dvres := DVNotFound | DVNoValue | DVValue (e : vexpr).
+Fixpoint declaredValue (v : list vspec) (name : string) : dvres :=
+  match v with
+  | [] => DVNotFound
+  | s :: r =>
+      match index_of name (vnames s) 0 with
+      | Some i =>
+          if negb (Nat.eqb (List.length (vvalues s)) (List.length (vnames s))) then DVNoValue
+          else match nth_error (vvalues s) i with Some e => DVValue e | None => DVNoValue end
+      | None => declaredValue r name
+      end
+  end.
+
+Fixpoint setDefault_new (vs : list (list vspec)) (fs : list function) : dres :=
+  match vs with
+  | [] => DNone
+  | v :: r =>
+      match declaredValue v "Default" with
+      | DVNotFound => setDefault_new r fs
+      | DVNoValue => DNone
+      | DVValue (VRef e) => match getFunction e fs with Some f => DSome f | None => DNone end
+      | DVValue (VMap _) => DNone
+      end
+  end.
+Definition setDefault_in (fixed : bool) := if fixed then setDefault_new else setDefault_old.
+Definition setDefault_ (fixed : bool) (pk : pkg) : dres := setDefault_in fixed (doc_vars pk) (funcs pk).
+Definition setDefault : pkg -> dres := setDefault_ true.
 
 Inductive ares := APanic | AList (l : list (string * function)).
 Definition alias_entries (kvs : list (string * fref)) (fs : list function) : list (string * function) :=
   flat_map (fun kv => match getFunction (snd kv) fs with Some f => [(fst kv, f)] | None => [] end) kvs.
-Fixpoint setAliases_in (vs : list (list vspec)) (fs : list function) : ares :=
+Fixpoint setAliases_old (vs : list (list vspec)) (fs : list function) : ares :=
   match vs with
   | [] => AList []
   | v :: r =>
       match index_of "Aliases" (value_names v) 0 with
-      | None => setAliases_in r fs
+      | None => setAliases_old r fs
       | Some x =>
           match nth_error v x with
           | None => APanic
@@ -317,7 +357,18 @@ Fixpoint setAliases_in (vs : list (list vspec)) (fs : list function) : ares :=
           end
       end
   end.
-Definition setAliases (pk : pkg) : ares := setAliases_in (doc_vars pk) (funcs pk).
+Fixpoint setAliases_new (vs : list (list vspec)) (fs : list function) : ares :=
+  match vs with
+  | [] => AList []
+  | v :: r =>
+      match declaredValue v "Aliases" with
+      | DVNotFound => setAliases_new r fs
+      | DVValue (VMap kvs) => AList (alias_entries kvs fs)
+      | _ => AList []
+      end
+  end.
+Definition setAliases_in (fixed : bool) := if fixed then setAliases_new else setAliases_old.
+Definition setAliases (pk : pkg) : ares := setAliases_in true (doc_vars pk) (funcs pk).
 
 (* ------------------------------------------------------------------ template.go: list and help *)
 Definition zero_function : function :=
